@@ -1,6 +1,7 @@
 package main
 
 import (
+	"strings"
 	"encoding/json"
 	"fmt"
 
@@ -102,9 +103,26 @@ func ackSeqMain(p AckSeqParams) {
 	want := p.Resume
 	var hist []string
 	trackBase := len(e.Cons.TrackSeq[0])
+	failSave := false
+	c.Fault = func(r *gocbcore.SimRequest) gocbcore.SimAnswer {
+		if failSave && (r.Kind == "mutatein" || r.Kind == "set") && strings.Contains(r.Key, ":checkpoint:") {
+			return gocbcore.SimAnswer{Kind: "err", Err: gocbcore.ErrTemporaryFailure}
+		}
+		return gocbcore.SimAnswer{}
+	}
 	for step := 0; step < p.Len; step++ {
-		op := vrt.Choose(len(delivered)+1, true, "ack-op")
-		if op == len(delivered) {
+		op := vrt.Choose(len(delivered)+2, true, "ack-op")
+		if op == len(delivered)+1 {
+			// a save the store rejects: nothing may be forgotten, the next successful save writes the position
+			before, _ := e.StoredSeq(0)
+			failSave = true
+			e.Stream.Save()
+			failSave = false
+			hist = append(hist, "commit-rejected")
+			if st, _ := e.StoredSeq(0); st != before {
+				vrt.Failf("harness: after %v the rejected save changed the store from %d to %d", hist, before, st)
+			}
+		} else if op == len(delivered) {
 			e.Stream.Save()
 			hist = append(hist, "commit")
 			if st, ok := e.StoredSeq(0); want > p.Resume && (!ok || st != want) {
